@@ -559,12 +559,20 @@ class Formatter:
         >>> format_out_filename(proto, ".h")
         "example_bp.h"
         """
+        return self.format_out_basename(proto) + extension
+
+    def format_out_basename(self, proto: Proto) -> str:
+        """Formats the out file name without extension for given proto, it's named
+        after the proto's file if there's one, and after the proto otherwise.
+
+        >>> format_out_basename(proto)
+        "example_bp"
+        """
         out_base_name = proto.name
         if proto.filepath:
             proto_base_name = os.path.basename(proto.filepath)
             out_base_name = os.path.splitext(proto_base_name)[0]  # remove extension
-        out_filename = out_base_name + "_bp" + extension
-        return out_filename
+        return out_base_name + "_bp"
 
     #####################
     # Optimization Mode
